@@ -935,7 +935,9 @@ class AsyncIteratorQueue(IteratorQueue[_ValueT], AsyncIterableQueue[_ValueT]):
     if not isinstance(iterator, AsyncIterator):
       iterator = aiter(iterator)
     self._start_enqueue()
-    while True:
+    # Like `enqueue_from_iterator`: leaves once the enqueue is done, e.g., it
+    # was stopped or another enqueuer failed.
+    while not self.enqueue_done:
       try:
         value = await asyncio.wait_for(anext(iterator), self.timeout)
         await self.async_put(value)
